@@ -10,9 +10,11 @@ given which rules match; get_aggregate_metric's memoisation is C08's contract).
 hash_router.getDestinations(name) is used through C05's contract as an uninterpreted function of
 the name (determinism), HR(name).
 """
+import ast
 import z3
 
 from pyvc.core import EngineError
+from pyvc.values import Closure
 from pyvc.runner import Unit, Property
 from pyvc.interp import Interp, LoopSpec, Spec, OBJECT
 from pyvc.models import Namespace, SymSeq, SymSet, TSort, TAtom, TInt, TBool, TTuple, PyList, Ty
@@ -213,8 +215,10 @@ class TRuleObj(Ty):
       if isinstance(c, tuple) and c[0] == 'search' and isinstance(d, DestsTok):
         cm = v.fields.get('continue_matching')
         return TRuleRec.mk(c[1], d.text, cm if z3.is_expr(cm) else z3.BoolVal(bool(cm)))
-      if isinstance(c, tuple) and c[0] == 'always' and isinstance(d, DestsTok):
-        return z3.Const('default_rule_of', z3.DeclareSort('X')) if False else DEFAULT_MK(d.text)
+      always = (isinstance(c, tuple) and c[0] == 'always') or \
+          (isinstance(c, Closure) and isinstance(c.node.body, ast.Constant) and c.node.body.value is True)
+      if always and isinstance(d, DestsTok):
+        return DEFAULT_MK(d.text)
     raise EngineError("rule list element %r" % (v,))
 
 
